@@ -4,6 +4,8 @@
 #include "galois/Bag.h"
 #include "galois/substrate/ThreadPool.h"
 #include "galois/gslist.h"
+#include <algorithm>
+#include <boost/iterator/counting_iterator.hpp>
 #include <forward_list>
 #include <list>
 #include <set>
@@ -71,7 +73,7 @@ int main() {
     int k = (int)wl_range(1, hw);
     galois::setActiveThreads(k);
     k = (int)galois::getActiveThreads();
-    int kind = (int)wl_range(0, 8);
+    int kind = (int)wl_range(0, 9);
     int sizes[] = {0, 1, k > 1 ? k - 1 : 1, 7, 31, 97, 257, (int)wl_range(2, 400), tier() ? (int)wl_range(1000, 4100) : (int)wl_range(300, 1100)};
     int n = sizes[wl_range(0, 8)];
     int variant = (int)wl_range(0, 3);
@@ -119,6 +121,20 @@ int main() {
              std::ref(bar),
              [&]() { unsigned tid = gsb::ThreadPool::getTID(); for (int j = 0; j < k; j++) if (cnt[j] != 1) vsim_fail("c03.run.phase", "second command of ThreadPool::run sees cnt[%d]=%d after the barrier", j, cnt[j]); obs_add(&finished, 1); (void)tid; });
       n = k;
+      break; }
+    case 9: {
+      // SpecificRange: user-specified per-thread block boundaries over [0,N), executed over a sub-range [gb,ge) (as libcusp does)
+      size_t N = (size_t)n;
+      std::vector<uint32_t> tb(k + 1, 0);
+      for (int t = 1; t < k; t++) tb[t] = (uint32_t)wl_range(0, (long)N);
+      tb[k] = (uint32_t)N; std::sort(tb.begin(), tb.end());
+      size_t gb = (size_t)wl_range(0, (long)N), ge = (size_t)wl_range((long)gb, (long)N);
+      if (wl_chance(30)) gb = 0; if (wl_chance(30)) ge = N;
+      auto sr = galois::runtime::makeSpecificRange(boost::counting_iterator<size_t>(gb), boost::counting_iterator<size_t>(ge), tb.data());
+      int off = (int)gb; int cnt_n = (int)(ge - gb);
+      auto f = [&](size_t i) { if (i < gb || i >= ge) vsim_fail("c03.range", "SpecificRange [%zu,%zu) of %zu: function applied to element %zu outside the range", gb, ge, N, i); elem((int)i - off, cnt_n); };
+      if (variant & 1) galois::do_all(galois::iterate(sr), f, galois::steal(), galois::chunk_size<2>()); else galois::do_all(galois::iterate(sr), f, galois::chunk_size<16>());
+      n = cnt_n; expected = cnt_n;
       break; }
     default: {
       // gslist-like forward iteration through a two-level structure: vector of vectors flattened by do_all over the outer index
